@@ -44,7 +44,7 @@ Fixpoint stmt_gen_reads (s : stmt) {struct s} : list (string * string) :=
   | SFor _ it test body => expr_gen_reads it ++ match test with Some t => expr_gen_reads t | None => [] end ++ go body
   | SSet _ e | SSetNs _ _ e => expr_gen_reads e
   | SCallBlock c body => expr_gen_reads c ++ go body
-  | SBlock _ body | SMacro _ _ body => go body
+  | SBlock _ body | SMacro _ _ _ body => go body
   | _ => []
   end.
 Definition all_gen_reads : list (string * string) :=
